@@ -33,6 +33,7 @@ ANCHORS = [
 ]
 REQUIRED_ANCHORS = ANCHORS
 REQUIRED = ["eq_observed", "with_changes", "with_placeholder", "with_unspecified", "empty_graph", "isolated_atoms", "harness_crosscheck", "disconnected", "large_graphs", "scale_cases", "high_coordination_cases"]
+CASE_TIMEOUT = 1500
 VARIANTS = ("rebuild", "relabel_copy", "relabel_inplace", "rewrite", "all", "derived", "numpy_parity")
 
 
@@ -75,6 +76,14 @@ def gen_cases(ctx):
         pg = gen.high_coordination_pg(random.Random(seed), cls, deg)
         m = gen.random_bijection(rng, pg)
         yield {"cls": cls, "pg": pg_to_json(pg), "variant": ("rebuild", "relabel_copy", "derived")[k % 3], "bseed": seed // 3, "idmap": [[a, b] for a, b in m.items()], "high_coordination": deg}
+    # thorough only (one case, ~3 min and ~1 GB on the pinned code): a centre with TEN ligands and no descriptor -
+    # colour refinement of the stereo classes walks over all 10! neighbour orders
+    for k10 in range(4):
+        seed10 = rng.randrange(1 << 30)
+        if ctx.tier == "thorough" and ctx.shard == (1 + k10) % ctx.nshards:
+            pg = gen.high_coordination_pg(random.Random(seed10), ("StereoMolGraph", "StereoCondensedReactionGraph")[k10 % 2], 10)
+            m = gen.random_bijection(random.Random(seed10 + 1), pg)
+            yield {"cls": pg["cls"], "pg": pg_to_json(pg), "variant": ("rebuild", "relabel_copy")[k10 // 2], "bseed": seed10 // 3, "idmap": [[a, b] for a, b in m.items()], "high_coordination": 10}
     for k, nsz, cls, seed in gen.scale_specs(ctx, rng):
         yield {"cls": cls, "scale": nsz, "gseed": seed, "variant": ("rebuild", "relabel_copy", "derived", "relabel_inplace", "derived")[k % 5], "bseed": seed // 3}
 
